@@ -52,6 +52,31 @@ Proof.
   apply Hn. apply String.eqb_neq. exact Hm.
 Qed.
 
+(* what initConnection establishes *)
+Lemma init_connection_bound en node mns csa ids c v :
+  init_connection en node mns csa ids = ConnAccepted c (Some v) ->
+  en = true /\
+  (exists dns, node_dns_domain node = Some dns /\ c = config_namespace mns dns) /\
+  (exists l raw, ids = Some l /\ In raw l /\ parse_identity raw = Some v) /\
+  (c <> "" -> id_ns v = c) /\ (mns <> "" -> id_ns v = mns) /\ (csa <> "" -> id_sa v = csa).
+Proof.
+  unfold init_connection. destruct (node_dns_domain node) as [dns|]; [|discriminate].
+  destruct (authorize en (config_namespace mns dns) csa ids) as [|x] eqn:A; [discriminate|].
+  intros H; inversion H; subst; clear H.
+  pose proof (authorize_bound_metadata _ _ _ _ _ _ A) as Hm.
+  apply authorize_bound in A. destruct A as (E & X & Hn & Hs).
+  split; [exact E|]. split; [exists dns; auto|]. split; [exact X|]. auto.
+Qed.
+
+(* an unauthenticated stream or a disabled check never yields a verified identity; a credential that
+   proves no matching identity is refused *)
+Lemma init_connection_unverified en node mns csa c v :
+  init_connection en node mns csa None = ConnAccepted c v -> v = None.
+Proof.
+  unfold init_connection. destruct (node_dns_domain node); [|discriminate].
+  cbn. intros H; inversion H; reflexivity.
+Qed.
+
 (* with the check on, an authenticated stream whose credential proves no matching identity is refused *)
 Lemma authorize_denies en cns csa l :
   en = true -> (forall raw, In raw l -> identity_matches cns csa raw = None) ->
